@@ -133,7 +133,10 @@ class NPProxy:
     def allclose(self, a, b, **kw):
         a = np.asarray(a); b = np.asarray(b)
         if a.dtype == object or b.dtype == object:
-            d = a - b
+            ao = np.asarray(a, dtype=object); bo = np.asarray(b, dtype=object)
+            if is_concrete_array(ao) and is_concrete_array(bo):
+                return self._real.allclose(to_numeric(ao), to_numeric(bo), **kw)     # plain numbers: NumPy's own tolerance test
+            d = ao - bo
             return all(bool(S(x) == 0) for x in np.asarray(d, dtype=object).reshape(-1))
         return self._real.allclose(a, b, **kw)
 
